@@ -24,6 +24,8 @@ TRUSTED = [
     'Generated/Charmaps.v, EncodingsData.v (data/charmaps and data/encodings through the repository loader) and CodecOracle.v '
     '(codecs.lookup / bytes.decode of the running interpreter for every charset name known to Python, gettext or the tool), '
     'regenerated on every run by tools/gen/gen_data.py',
+    'source translator tools/gen/gen_encodings_src.py (python ast of lib/iconv.py, lib/encodings.py, the charset statement of Checker.check_mime, the tail of '
+    'Language.get_unrepresentable_characters -> Generated/EncodingsSrc.v; rules in its docstring) and its vocabulary Model/EncodingsPy.v, Model/EncodingsMime.v',
     'extraction (ExtrOcamlBasic only) + ocaml/driver.ml',
     'correspondence harness tools/harness/c20.py; /usr/bin/iconv (glibc) as the reference for "the system iconv"',
     'CPython codec machinery (codecs.lookup normalisation, charmap_* C functions, ctypes) is modelled, not verified',
@@ -426,6 +428,8 @@ def extra_codec_streams(ctx):
                 r = py_decode(name, b)
                 if r[0] == 'ok':
                     rep.append((b, r[1]))
+        if not rep:     # nothing decodes at all (e.g. every call hangs): keep the streams going on ASCII so that this is what gets reported
+            rep = [(bytes([b]), chr(b)) for b in range(32, 127)]
         # random strings of valid units with occasional noise; every truncation of some of them
         nrand = 150 if ctx.quick() else 3000
         for _ in range(nrand):
